@@ -281,8 +281,30 @@ func c03OperandRange(r *core.Run, prog *core.Program) {
 	pk := prog.Pkg("pkg/procbuilder")
 	info := pk.TypesInfo
 	n := 0
+	// the Process_* helpers and the package functions they delegate to
+	scope := map[*ast.FuncDecl]bool{}
+	decls := map[types.Object]*ast.FuncDecl{}
+	core.FuncDecls(pk, func(_ *ast.File, fd *ast.FuncDecl) {
+		if o := info.Defs[fd.Name]; o != nil {
+			decls[o] = fd
+		}
+	})
 	core.FuncDecls(pk, func(_ *ast.File, fd *ast.FuncDecl) {
 		if fd.Recv != nil || !strings.HasPrefix(fd.Name.Name, "Process_") {
+			return
+		}
+		scope[fd] = true
+		ast.Inspect(fd.Body, func(m ast.Node) bool {
+			if call, ok := m.(*ast.CallExpr); ok {
+				if d, ok := decls[core.CalleeOf(info, call)]; ok && d.Recv == nil {
+					scope[d] = true
+				}
+			}
+			return true
+		})
+	})
+	core.FuncDecls(pk, func(_ *ast.File, fd *ast.FuncDecl) {
+		if !scope[fd] {
 			return
 		}
 		// counters bounded by construction
